@@ -51,6 +51,34 @@ STRENGTHENED3 = {
     "C19": "configuration by attribute assignment (with and without a decoy configuration)",
     "C20": "-",
 }
+STRENGTHENED4 = {
+    "C01": "more than 256 candidates with seeds given in a compact unsigned dtype",
+    "C02": "targets stored in narrow integer dtypes (int8 ... int32) with products beyond their range",
+    "C03": "whole-number, exactly centred tables handed over integer-typed; p = m; new samples and other units across routes",
+    "C04": "a table of more than 4096 rows (the data stacked r times equals the data times sqrt r)",
+    "C05": "the caller's training buffer overwritten after fit",
+    "C06": "an unreached (relative) score threshold on small-unit data",
+    "C07": "exact (scaled) copies of columns / rows; tables in mixed units (multi-scale spectrum of the selections); tolerance guard per direction",
+    "C08": "links that add nothing (two requests resolving to the same count); the calibrated switching point with a 'random' start",
+    "C09": "hull columns given as an index array counting from the end",
+    "C10": "stateful random generators (RandomState instances); indicator designs whose cut-offs sit exactly on singular values",
+    "C12": "more than 2048 samples (ordered data); weights of tiny magnitude",
+    "C13": "index sets in arbitrary order / with repeated entries; planted maps living on a weak, nearly collinear direction",
+    "C14": "-",
+    "C15": "more than 65536 pairs in one call; integer-typed precision matrices",
+    "C16": "another instance made periodic by writing into its default metric_params dictionary",
+    "C17": "one evaluation call above 2^22 grid-pair x query products",
+    "C18": "more than 1024 samples with decisive trailing rows and the textbook optimum as competitor; planted rotations within 1e-5 of the identity with a tolerance of 1e-12",
+    "C19": "one call with 420 000 queries; training buffers overwritten after fit",
+    "C20": "-",
+}
+FIRST4 = {}
+_p4 = os.path.join(VERIF, "seeded", "round4_first_run.log")
+if os.path.exists(_p4):
+    for line in open(_p4):
+        m_ = re.match(r"(C\d\d-r4[fg])\s+C\d\d:(\w+)", line)
+        if m_:
+            FIRST4[m_.group(1)] = m_.group(2)
 FIRST3 = {}
 _p3 = os.path.join(VERIF, "seeded", "round3_first_run.log")
 if os.path.exists(_p3):
@@ -70,19 +98,29 @@ def squash(t, n):
     return t if len(t) <= n else t[: n - 1].rsplit(" ", 1)[0] + " ..."
 
 
-for mf in sorted(glob.glob(os.path.join(VERIF, "seeded", "*-r[23]*", "meta.json"))):
+for mf in sorted(glob.glob(os.path.join(VERIF, "seeded", "*-r[234]*", "meta.json"))):
     d = os.path.dirname(mf)
     m = json.load(open(mf))
     notes = open(os.path.join(d, "NOTES.md")).read()
     title = notes.splitlines()[0].lstrip("# ").strip()
-    title = re.sub(r"^(C\d\d\s*/?\s*)?(seed|defect)?\s*\(?[abcde]\)?\s*(?=[-—:(/ ])", "", title, flags=re.I).lstrip(" -—:/").strip()
+    title = re.sub(r"^(C\d\d\s*/?\s*)?(seed|defect)?\s*\(?[abcdefg]\)?\s*(?=[-—:(/ ])", "", title, flags=re.I).lstrip(" -—:/").strip()
     m["breaks"] = squash(title, 220)
     m["needs"] = squash(section(notes, "need|manifest"), 330)
     kind = m["name"][-1]
-    m["kind"] = {"a": "history / state dependent", "b": "numeric regime dependent", "c": "configuration / argument-form dependent", "d": "boundary / extreme-size dependent", "e": "entry-point / protocol dependent"}[kind]
+    m["kind"] = {"a": "history / state dependent", "b": "numeric regime dependent", "c": "configuration / argument-form dependent", "d": "boundary / extreme-size dependent", "e": "entry-point / protocol dependent", "f": "order / randomness / accumulation dependent", "g": "free choice (meant to survive a randomized oracle campaign)"}[kind]
     rel = os.path.relpath(mf, VERIF)
     p = subprocess.run(["git", "-C", VERIF, "show", f"{FIRST}:{rel}"], capture_output=True, text=True)
     first = None
+    if "-r4" in m["name"]:
+        first = FIRST4.get(m["name"])
+        m["first_verdict"] = first
+        if m.get("superseded"):
+            m["history"] = "superseded: " + m["superseded"][:160]
+        else:
+            m["history"] = "caught as filed" if first == "caught" else f"{first or 'not run'} as filed; caught after the check gained: {STRENGTHENED4.get(m['property'], '?')}"
+        json.dump(m, open(mf, "w"), indent=1)
+        print(m["name"], first, "|", m["breaks"][:80], "|", m["needs"][:60])
+        continue
     if "-r3" in m["name"]:
         first = FIRST3.get(m["name"])
         m["first_verdict"] = first
